@@ -152,7 +152,25 @@ func (fx *Fx) inlineBody(st *State, pkg *Pkg, ft *ast.FuncType, body *ast.BlockS
 			}
 		}
 	}
-	outs := fx.execBlock(st, body.List)
+	deferBase := len(st.defers)
+	outs0 := fx.execBlock(st, body.List)
+	var outs []Outcome
+	for _, o := range outs0 {
+		if o.kind != kReturn && o.kind != kNormal && o.kind != kPanic {
+			outs = append(outs, o)
+			continue
+		}
+		for _, ds := range fx.runDefers(o.st, deferBase) {
+			k := o.kind
+			if k == kPanic && ds.panicVal == "" {
+				k = kReturn
+				ds.retVals = nil
+			} else if k != kPanic && named {
+				ds.retVals = nil
+			}
+			outs = append(outs, Outcome{st: ds, kind: k})
+		}
+	}
 	var res []callResult
 	for _, o := range outs {
 		switch o.kind {
